@@ -64,10 +64,29 @@
 (*     (here: a flow's filter hits exactly when the request carries x-a: 1, a gate flow whose filter hit answers with  *)
 (*     its status, nothing else answers), whatever metrics.yaml and the processors' metric settings say.               *)
 (*                                                                                                                     *)
+(* M11 transaction_duration = "Transaction total duration (gateway time + provider time), ms", provider_transaction_       *)
+(*     duration = "Provider time (the round trip time from gateway to provider), ms" [metrics.yaml], histograms with the  *)
+(*     configured buckets, fed every LUNAR_ACCESS_LOG_METRICS_COLLECTION_TIME_INTERVAL_SEC from the discovery state       *)
+(*     [transaction_metrics.go].  The engine does not observe transactions: at a collection it records, for every         *)
+(*     consumer x endpoint whose running averages moved since the previous collection, the *average* once per status code *)
+(*     of that endpoint.  What both this and a per-transaction histogram guarantee, and what is demanded here: a series    *)
+(*     exists only under the labels (M1, M2) of some counted transaction; the mean of its observations lies between the    *)
+(*     smallest and the largest duration of the counted transactions that carry these labels up to the status code; the    *)
+(*     two histograms are not mixed up; a listed histogram shows something once a collection has met a counted             *)
+(*     transaction; an unlisted one shows nothing.  (That `_count` is not the number of transactions is reported, not      *)
+(*     judged.)                                                                                                            *)
+(* M12 lunar_transaction = "Histogram (& derived counter) of transactions runtime. Global by host, Endpoint by normalized  *)
+(*     URL" [legacy_metrics.go; the manager of policy mode, run here on its own against the same discovery state], labels *)
+(*     normalized_url = the host, method, status_code.  The derived counter never exceeds the transactions counted with   *)
+(*     these labels up to the last collection and loses none that was counted after its endpoint became known to the      *)
+(*     manager (the engine skips what an endpoint brought when it was first seen - also everything discovered before the   *)
+(*     process started: DEV legacy-first-sight when that shows); the mean lies between the provider times (whole ms) of     *)
+(*     the counted transactions of that host and method.                                                                  *)
 (* M10 a scrape succeeds (see Collide below for the one situation in which the engine's does not).                       *)
 (*                                                                                                                     *)
 (* P is defined on the history record h (advanced by PStart / PTxn / PFlush / PReload below) and on the set S of       *)
-(* samples of a scrape:  [n : family name, l : set of <<label, value>>, v : value in 1/1000, p : 1 when v > 0].        *)
+(* samples of a scrape:  [n : family name, l : set of <<label, value>>, v : value in 1/1000 (histogram: observations x   *)
+(* 1000), p : 1 when v > 0, sum : histogram sum in 1/1000].                                                             *)
 (* Every law operator returns "ok" or the name of the first law broken.                                                *)
 EXTENDS Integers, Sequences, FiniteSets, TLC
 
@@ -239,8 +258,59 @@ ProcLaw(h, S) ==
                   IN  ~NoDup(S, fam) \/ Fam(S, fam) # CountBy(items, L)}
     IN  IF bad = {} THEN "ok" ELSE "M5-" \o (CHOOSE f \in bad : TRUE)
 
+\* ------------------------------------------------------------------------------------------------ M11 / M12
+\* histogram samples: v = 1000 x number of observations, sum = 1000 x their sum
+HFam(S, name) == {[l |-> s.l, v |-> s.v, sum |-> s.sum] : s \in {x \in S : x.n = name}}
+NoStatus(L) == {kv \in L : kv[1] # "status_code"}
+MinOf(X) == CHOOSE x \in X : \A y \in X : x <= y
+MaxOf(X) == CHOOSE x \in X : \A y \in X : x >= y
+
+HistLaw(h, S, fam, name, Dur(_)) ==
+    LET F == HFam(S, fam)
+        fl == h.flushed
+        Explained(s) ==
+            /\ s.v >= 1000
+            /\ \E c \in h.ever, rd \in {"doc", "eng"} :
+                 LET Lab(r) == CallLabels(h, r, SeqSet(c.labels), c.lep, rd)
+                     T == {i \in DOMAIN fl : NoStatus(Lab(fl[i])) = NoStatus(s.l)}
+                 IN  /\ \E i \in DOMAIN fl : Lab(fl[i]) = s.l
+                     /\ MinOf({Dur(fl[i]) : i \in T}) * s.v - 1000 <= s.sum
+                     /\ s.sum <= MaxOf({Dur(fl[i]) : i \in T}) * s.v + 1000
+    IN  IF F # {} /\ ~MayBeThere(h, name) THEN "M11-" \o name \o "-Unlisted"
+        ELSE IF Cardinality(F) # Cardinality({s.l : s \in F}) THEN "M11-" \o name \o "-Series"
+        ELSE IF \E s \in F : ~Explained(s) THEN "M11-" \o name
+        ELSE IF F = {} /\ MustBeThere(h, name) /\ (\E i \in DOMAIN h.hcol : h.hcol[i] > 0) THEN "M11-" \o name \o "-Missing"
+        ELSE "ok"
+
+LegacyLabels(r) == {<<"method", r.m>>, <<"normalized_url", HostOf(r.nus)>>, <<"status_code", ToString(r.st)>>}
+\* the counted transactions the legacy manager has met (up to its last collection) / those it met after their endpoint had
+\* become known to it
+LegacyMet(h) == IF Len(h.hcol) = 0 THEN {} ELSE 1..h.hcol[Len(h.hcol)]
+LegacyFirst(h, i) ==       \* the first collection that met the endpoint of counted transaction i (0: none yet)
+    LET K == {k \in SeqSet(h.hcol) : \E j \in 1..k : h.flushed[j].m = h.flushed[i].m /\ h.flushed[j].nus = h.flushed[i].nus}
+    IN  IF K = {} THEN 0 ELSE MinOf(K)
+LegacyAfterFirst(h) == {i \in LegacyMet(h) : LegacyFirst(h, i) > 0 /\ i > LegacyFirst(h, i)}
+
+LegacyLaw(h, S) ==
+    LET F == HFam(S, "lunar_transaction")
+        fl == h.flushed
+        all(L) == Cardinality({i \in LegacyMet(h) : LegacyLabels(fl[i]) = L})
+        sure(L) == Cardinality({i \in LegacyAfterFirst(h) : LegacyLabels(fl[i]) = L})
+        Ls == {LegacyLabels(fl[i]) : i \in LegacyAfterFirst(h)}
+        Mean(s) == LET T == {i \in DOMAIN fl : fl[i].m = (CHOOSE kv \in s.l : kv[1] = "method")[2]
+                                             /\ HostOf(fl[i].nus) = (CHOOSE kv \in s.l : kv[1] = "normalized_url")[2]}
+                   IN  (MinOf({fl[i].d : i \in T}) - 1) * s.v <= s.sum /\ s.sum <= MaxOf({fl[i].d : i \in T}) * s.v
+    IN  IF ~h.legacy THEN (IF F = {} THEN "ok" ELSE "M12-Unexpected")
+        ELSE IF Cardinality(F) # Cardinality({s.l : s \in F}) THEN "M12-Series"
+        ELSE IF \E s \in F : s.v < 1000 \/ all(s.l) = 0 \/ s.v > 1000 * all(s.l) THEN "M12-MoreThanCounted"
+        ELSE IF \E s \in F : s.v < 1000 * sure(s.l) THEN "M12-Lost"
+        ELSE IF \E L \in Ls : ~\E s \in F : s.l = L THEN "M12-Lost"
+        ELSE IF \E s \in F : ~Mean(s) THEN "M12-Mean"
+        ELSE "ok"
+
 \* ------------------------------------------------------------------------------------------------ the scrape
-KnownFams == ProcFams \cup {"api_call_count_total", "api_call_size", "active_flows", "flow_invocations_total",
+HistFams == {"lunar_transaction_duration", "lunar_provider_transaction_duration", "lunar_transaction"}
+KnownFams == ProcFams \cup HistFams \cup {"api_call_count_total", "api_call_size", "active_flows", "flow_invocations_total",
                             "requests_through_flows_total", "avg_flow_execution_time", "avg_processor_execution_time"}
 
 CountListLaw(h, S) ==
@@ -258,7 +328,10 @@ ScrapeLaw(h, S, gerr) ==
     First(<< IF gerr /\ ~Collide(h.pexec) THEN "M10-ScrapeFailed" ELSE "ok",
              CountListLaw(h, S), CountLaw(h, S), SizeLaw(h, S), ActiveLaw(h, S), ThroughLaw(h, S), InvocationsLaw(h, S),
              AvgLaw(h, S, "avg_flow_execution_time", LAMBDA ep : FlowRan(h, ep)), AvgLaw(h, S, "avg_processor_execution_time", LAMBDA ep : ProcRan(h, ep)),
-             IF gerr THEN "ok" ELSE ProcLaw(h, S) >>)
+             IF gerr THEN "ok" ELSE ProcLaw(h, S),
+             HistLaw(h, S, "lunar_transaction_duration", "transaction_duration", LAMBDA r : r.td),
+             HistLaw(h, S, "lunar_provider_transaction_duration", "provider_transaction_duration", LAMBDA r : r.d),
+             LegacyLaw(h, S) >>)
 
 \* what only a named deviation explains (counted by the driver, never a verdict)
 ScrapeDevs(h, S, gerr) ==
@@ -266,6 +339,9 @@ ScrapeDevs(h, S, gerr) ==
     (IF CountReading(h, S) = "eng" THEN {"path-of-endpoint"} ELSE {})
     \cup (IF Fam(S, "api_call_size") # {} /\ SizeReading(h, Val(S, "api_call_size")) = "eng" THEN {"size-body-only"} ELSE {})
     \cup (IF Fam(S, "api_call_count_total") # {} /\ ~MayBeThere(h, "api_call_count") THEN {"count-always"} ELSE {})
+    \cup (IF h.legacy /\ ((\E s \in HFam(S, "lunar_transaction") : s.v < 1000 * Cardinality({i \in LegacyMet(h) : LegacyLabels(h.flushed[i]) = s.l}))
+                         \/ (\E i \in LegacyMet(h) : ~\E s \in HFam(S, "lunar_transaction") : s.l = LegacyLabels(h.flushed[i])))
+          THEN {"legacy-first-sight"} ELSE {})
     \cup (IF h.docCand # {} /\ ~(\E c \in h.docCand : Fam(S, "api_call_count_total") \in {CountExpected(h, c, "doc"), CountExpected(h, c, "eng")})
              /\ Len(h.flushed) > 0 THEN {"reload-compares-with-startup"} ELSE {})
 
@@ -330,7 +406,8 @@ Cand(f) == [labels |-> f.labels, lep |-> f.lep]
 \* the gateway process (re)starts with the file and the flows of e; the discovery state stays
 PStart(h, e) ==
     [h EXCEPT !.gw = e.gw, !.fileStart = File(e), !.fileNow = File(e), !.cands = {Cand(File(e))}, !.docCand = {},
-              !.flows = e.flows, !.pend = <<>>, !.resps = <<>>, !.reqs = <<>>, !.pexec = <<>>, !.ep = 0, !.up = TRUE]
+              !.flows = e.flows, !.pend = <<>>, !.resps = <<>>, !.reqs = <<>>, !.pexec = <<>>, !.ep = 0, !.up = TRUE,
+              !.ever = {Cand(File(e))}, !.hcol = <<>>, !.legacy = ("legacy" \in DOMAIN e /\ e.legacy)]
 
 PReload(h, e) ==
     LET f == File(e)
@@ -339,12 +416,15 @@ PReload(h, e) ==
         stale == {[labels |-> IF f.labels = h.fileStart.labels THEN c.labels ELSE f.labels,
                    lep    |-> IF f.lep = h.fileStart.lep THEN c.lep ELSE f.lep] : c \in h.cands}
     IN  [h EXCEPT !.fileNow = f, !.cands = {doc} \cup stale, !.docCand = IF stale = {doc} THEN {} ELSE {doc},
-                  !.flows = e.flows, !.ep = h.ep + 1]
+                  !.flows = e.flows, !.ep = h.ep + 1, !.ever = h.ever \cup {doc} \cup stale]
+
+\* a collection tick of the histogram managers: it meets what has been flushed so far
+PCollect(h) == [h EXCEPT !.hcol = Append(h.hcol, Len(h.flushed))]
 
 PTxn(h, e) ==
     LET reqFlows == {e.procs[i][1] : i \in {j \in DOMAIN e.procs : e.procs[j][3] = "req"}}
         rq == [flows |-> reqFlows, any |-> reqFlows # {}, walked |-> Len(e.procs) > 0, nproc |-> Len(e.procs), ep |-> h.ep]
-    IN  [h EXCEPT !.pend = Append(h.pend, [m |-> e.logged.m, us |-> e.us, st |-> e.logged.st, tag |-> e.logged.tag]),
+    IN  [h EXCEPT !.pend = Append(h.pend, [m |-> e.logged.m, us |-> e.us, st |-> e.logged.st, tag |-> e.logged.tag, d |-> e.logged.d, td |-> e.logged.td]),
                   !.reqs = Append(h.reqs, rq),
                   !.resps = IF e.ans.early THEN h.resps ELSE Append(h.resps, [clen |-> e.clen, blen |-> e.blen, ep |-> h.ep]),
                   !.pexec = h.pexec \o PExecOf(h, e)]
@@ -352,12 +432,13 @@ PTxn(h, e) ==
 PFlush(h, n, attr) ==
     LET k == IF n > Len(h.pend) THEN Len(h.pend) ELSE n IN
     [h EXCEPT !.flushed = h.flushed \o [i \in 1..k |-> [m |-> h.pend[i].m, us |-> h.pend[i].us, nus |-> AttrOf(attr, h.pend[i].us),
-                                                          st |-> h.pend[i].st, tag |-> h.pend[i].tag]],
+                                                          st |-> h.pend[i].st, tag |-> h.pend[i].tag, d |-> h.pend[i].d, td |-> h.pend[i].td]],
               !.pend = SubSeq(h.pend, k + 1, Len(h.pend))]
 
 \* a fresh installation: no discovery state yet
 PReset(known) ==
     [known |-> known, gw |-> "", fileStart |-> [labels |-> <<>>, lep |-> <<>>, gm |-> <<>>, sm |-> <<>>],
      fileNow |-> [labels |-> <<>>, lep |-> <<>>, gm |-> <<>>, sm |-> <<>>], cands |-> {}, docCand |-> {}, flows |-> <<>>,
-     flushed |-> <<>>, pend |-> <<>>, resps |-> <<>>, reqs |-> <<>>, pexec |-> <<>>, ep |-> 0, up |-> FALSE]
+     flushed |-> <<>>, pend |-> <<>>, resps |-> <<>>, reqs |-> <<>>, pexec |-> <<>>, ep |-> 0, up |-> FALSE,
+     ever |-> {}, hcol |-> <<>>, legacy |-> FALSE]
 ================================================================================
